@@ -22,15 +22,21 @@ NLines == Len(Rec)
 VARIABLES l,        \* next line to match
           pc,       \* step expected next
           sc,       \* current scenario
-          A, B,     \* Level-B model state
-          oA, oB    \* dense meanings as observed from the code
+          A, B, C,  \* Level-B model state (operands)
+          R,        \* Level-B result of the first operation
+          oA, oB, oC,   \* dense meanings as observed from the code
+          oR,       \* dense meaning of the first result as observed
+          stR       \* storage (kind, ml, mu) the code reported for the first result
 
-vars == <<l, pc, sc, A, B, oA, oB>>
+vars == <<l, pc, sc, A, B, C, R, oA, oB, oC, oR, stR>>
 
 NoSc == [n |-> 0, ctor |-> "zeros", ml |-> 0, mu |-> 0, pat |-> "zero", op |-> "read", i |-> 0, j |-> 0, s |-> 0,
-         bkind |-> "F", bml |-> 0, bmu |-> 0, bpat |-> "zero"]
+         bkind |-> "F", bml |-> 0, bmu |-> 0, bpat |-> "zero",
+         op2 |-> "none", i2 |-> 0, j2 |-> 0, s2 |-> 0, ckind |-> "F", cml |-> 0, cmu |-> 0, cpat |-> "zero"]
+NoSt == [kind |-> "F", ml |-> 0, mu |-> 0]
 
-Init == TLCSet(1, ndJsonDeserialize(IOEnv.TRACE)) /\ l = 1 /\ pc = "ctorA" /\ sc = NoSc /\ A = NoMat /\ B = NoMat /\ oA = <<>> /\ oB = <<>>
+Init == TLCSet(1, ndJsonDeserialize(IOEnv.TRACE)) /\ l = 1 /\ pc = "ctorA" /\ sc = NoSc /\ A = NoMat /\ B = NoMat /\ C = NoMat /\ R = NoMat
+        /\ oA = <<>> /\ oB = <<>> /\ oC = <<>> /\ oR = <<>> /\ stR = NoSt
 
 Viol(clause, r, detail) == PrintT(<<"VIOL", "C17", clause, r.sid, detail>>)
 Drift(r, detail) == PrintT(<<"DRIFT", "C17", r.act, r.sid, detail>>)
@@ -54,7 +60,8 @@ Obs(r, n, m) == IF IsDense(r.entries, n) THEN r.entries ELSE ReadAll(m)
 
 WellFormedSc(s) ==
   /\ s.n \in 1..8 /\ s.ctor \in Ctors /\ s.pat \in Pats /\ s.bpat \in Pats /\ s.op \in Ops
-  /\ s.bkind \in {"I", "F", "B"}
+  /\ s.bkind \in {"I", "F", "B"} /\ s.ckind \in {"I", "F", "B"} /\ s.op2 \in Ops2
+  /\ (HasOp2(s) => s.op \in BinOps \cup ScalarOps)
 
 Step ==
   /\ l <= NLines
@@ -69,7 +76,7 @@ Step ==
                                                    got |-> r.entries, want |-> ExpectA0(s)]))
                  /\ CheckDrift(r, m.panic, m.mat, ok)
                  /\ sc' = s /\ A' = m.mat /\ oA' = Obs(r, s.n, m.mat)
-                 /\ pc' = "fillA" /\ UNCHANGED <<B, oB>>
+                 /\ pc' = "fillA" /\ UNCHANGED <<B, C, R, oB, oC, oR, stR>>
         \/ /\ pc = "fillA"
            /\ LET m == StepFillA(sc, A)
                   ok == ClauseFillA(sc, oA, r.panic, r.entries)
@@ -77,7 +84,7 @@ Step ==
                                                      panic |-> r.panic, before |-> oA, got |-> r.entries]))
                  /\ CheckDrift(r, m.panic, m.mat, ok)
                  /\ A' = m.mat /\ oA' = Obs(r, sc.n, m.mat)
-                 /\ pc' = (IF IsBin(sc) THEN "ctorB" ELSE "op") /\ UNCHANGED <<sc, B, oB>>
+                 /\ pc' = (IF IsBin(sc) THEN "ctorB" ELSE "op") /\ UNCHANGED <<sc, B, C, R, oB, oC, oR, stR>>
         \/ /\ pc = "ctorB"
            /\ LET m == StepCtorB(sc)
                   ok == ClauseCtorB(sc, r.panic, r.entries)
@@ -85,7 +92,7 @@ Step ==
                                                    panic |-> r.panic, got |-> r.entries]))
                  /\ CheckDrift(r, m.panic, m.mat, ok)
                  /\ B' = m.mat /\ oB' = Obs(r, sc.n, m.mat)
-                 /\ pc' = "fillB" /\ UNCHANGED <<sc, A, oA>>
+                 /\ pc' = "fillB" /\ UNCHANGED <<sc, A, C, R, oA, oC, oR, stR>>
         \/ /\ pc = "fillB"
            /\ LET m == StepFillB(sc, B)
                   ok == ClauseFillB(sc, oB, r.panic, r.entries)
@@ -93,7 +100,7 @@ Step ==
                                                      panic |-> r.panic, before |-> oB, got |-> r.entries]))
                  /\ CheckDrift(r, m.panic, m.mat, ok)
                  /\ B' = m.mat /\ oB' = Obs(r, sc.n, m.mat)
-                 /\ pc' = "op" /\ UNCHANGED <<sc, A, oA>>
+                 /\ pc' = "op" /\ UNCHANGED <<sc, A, C, R, oA, oC, oR, stR>>
         \/ /\ pc = "op"
            /\ LET m == StepOp(sc, A, B)
                   ok == ClauseOp(sc, oA, oB, r.panic, r.entries, r.val)
@@ -103,7 +110,38 @@ Step ==
                  /\ CheckDrift(r, m.panic, m.mat, ok)
                  /\ (IF sc.op = "is_identity" /\ ok /\ ~m.panic /\ r.val # m.val
                      THEN Drift(r, [model_val |-> m.val, code_val |-> r.val]) ELSE TRUE)
-                 /\ pc' = "ctorA" /\ UNCHANGED <<sc, A, B, oA, oB>>
+                 /\ R' = m.mat /\ oR' = Obs(r, sc.n, m.mat) /\ stR' = [kind |-> r.kind, ml |-> r.ml, mu |-> r.mu]
+                 /\ pc' = (IF ~HasOp2(sc) THEN "ctorA" ELSE IF IsBin2(sc) THEN "ctorC" ELSE "op2")
+                 /\ UNCHANGED <<sc, A, B, C, oA, oB, oC>>
+        \/ /\ pc = "ctorC"
+           /\ LET m == StepCtorC(sc)
+                  ok == ClauseCtorC(sc, r.panic, r.entries)
+              IN /\ (IF ok THEN TRUE ELSE Viol("constructor", r, [ctor |-> BCtor(sc.ckind), n |-> sc.n, ml |-> sc.cml, mu |-> sc.cmu,
+                                                   panic |-> r.panic, got |-> r.entries]))
+                 /\ CheckDrift(r, m.panic, m.mat, ok)
+                 /\ C' = m.mat /\ oC' = Obs(r, sc.n, m.mat)
+                 /\ pc' = "fillC" /\ UNCHANGED <<sc, A, B, R, oA, oB, oR, stR>>
+        \/ /\ pc = "fillC"
+           /\ LET m == StepFillC(sc, C)
+                  ok == ClauseFillC(sc, oC, r.panic, r.entries)
+              IN /\ (IF ok THEN TRUE ELSE Viol("write_in_band", r, [ctor |-> BCtor(sc.ckind), ml |-> sc.cml, mu |-> sc.cmu, writes |-> WsC(sc),
+                                                     panic |-> r.panic, before |-> oC, got |-> r.entries]))
+                 /\ CheckDrift(r, m.panic, m.mat, ok)
+                 /\ C' = m.mat /\ oC' = Obs(r, sc.n, m.mat)
+                 /\ pc' = "op2" /\ UNCHANGED <<sc, A, B, R, oA, oB, oR, stR>>
+        \/ /\ pc = "op2"
+           \* the clause is evaluated on the dense meaning the code showed for the first result (oR) and on the
+           \* storage it advertised for it (stR); the Level-B model continues from its own first result R
+           /\ LET m == StepOp2(sc, R, C)
+                  ok == ClauseOp2(sc, oR, oC, stR, r.panic, r.entries, r.val)
+              IN /\ (IF ok THEN TRUE ELSE Viol(ClauseName2(sc, stR), r, [op |-> sc.op, op2 |-> sc.op2, panic |-> r.panic,
+                                                    first_result |-> oR, first_result_storage |-> stR,
+                                                    c |-> (IF IsBin2(sc) THEN oC ELSE <<>>), i2 |-> sc.i2, j2 |-> sc.j2, s2 |-> sc.s2,
+                                                    got |-> r.entries, val |-> r.val]))
+                 /\ CheckDrift(r, m.panic, m.mat, ok)
+                 /\ (IF sc.op2 = "is_identity" /\ ok /\ ~m.panic /\ r.val # m.val
+                     THEN Drift(r, [model_val |-> m.val, code_val |-> r.val]) ELSE TRUE)
+                 /\ pc' = "ctorA" /\ UNCHANGED <<sc, A, B, C, R, oA, oB, oC, oR, stR>>
   /\ l' = l + 1
 
 Next == Step
